@@ -14,6 +14,7 @@
   `actor_value` decide on concrete histories, with the known exceptions `dust_validator` and `full_withdraw_rounder`.
 -/
 import AllianceProofs
+import AllianceProofs.ArithTie
 namespace Alliance
 namespace C04
 open Dec
